@@ -70,18 +70,23 @@ def build_module(ctx, case, ifaces, template=None, extra_cfg=None, extra_files=N
     if extra_cfg:
         cfg.update(extra_cfg)
     srcpath = MOD + "/" + sdir
-    cfg["packages"] = {srcpath: {"interfaces": {i["name"]: per_iface for i in ifaces}}}
+    tdn = case.get("td_by_name") or {}
+    cfg["packages"] = {srcpath: {"interfaces": {i["name"]: ({"config": {"template-data": tdn[i["name"]]}} if tdn.get(i["name"]) else per_iface) for i in ifaces}}}
+    if case.get("onefile"):
+        cfg["filename"] = "mock_all_test.go" if pl in ("inpkg-test", "xtest") else "mock_all.go"
     files[".mockery.yml"] = json.dumps(cfg, ensure_ascii=False, indent=1)
     if extra_files:
         files.update(extra_files)
     gomod = GOMOD_SPELLINGS[case.get("gomod", "plain")] + GOMOD_REST.replace("\n", "\r\n" if case.get("gomod") == "crlf" else "\n")
     root = core.scratch_module(ctx, files, gomod=gomod)
-    return root, {"srcdir": sdir, "srcpkg": spkg, "srcpath": srcpath, "outdir": outdir, "outpkg": outpkg, "cfg": cfg,
+    return root, {"srcdir": sdir, "srcpkg": spkg, "srcpath": srcpath, "outdir": outdir, "outpkg": outpkg, "cfg": cfg, "onefile": bool(case.get("onefile")),
                   "tags": (td.get("mock-build-tags") or None)}
 
 
 def out_file(info, iface, placement):
     suffix = "_test.go" if placement in ("inpkg-test", "xtest") else ".go"
+    if info.get("onefile"):
+        return os.path.join(info["outdir"], "mock_all" + suffix)
     return os.path.join(info["outdir"], "mock_%s%s" % (iface["name"], suffix))
 
 
